@@ -3,7 +3,8 @@
     This file states the round trip over the serialized *content*
     ([sworld]: archetypes with identifiers and values, allocator length and
     free list with generations, resources), which is what both encodings carry. *)
-From Brood Require Import Base World Multi Spec BaseFacts Inv CloneEq SerdeL.
+From Coq Require Import Permutation.
+From Brood Require Import Base World Multi Spec BaseFacts Inv CloneEq SerdeL SerdeC BytesRoundtrip ClearOrderFacts.
 
 (** Every reachable world serializes, and deserializing gives back the same
     archetypes, allocator, length and resources (only the type-id cache is
@@ -50,3 +51,34 @@ Example C06_example :
   | None => False
   end.
 Proof. vm_compute. auto. Qed.
+
+(** "From then on behaves identically … same identifiers issued": the one operation whose outcome used to
+    depend on the order of the (address-keyed) archetype table is [clear], which frees the identifiers in the
+    order it visits the archetypes.  With the archetypes visited in the order of their identifiers' bytes —
+    read off the source, [fact_clear_visits_in_identifier_order]; finding F6 repaired — the outcome is the same
+    for every order of the table, for every registry size. *)
+Theorem C06_clear_independent_of_table_order : forall w v1 v2, Permutation v1 v2 ->
+  (forall sh, In sh v1 -> length sh = w_n w) -> step w (Clear v1) = step w (Clear v2).
+Proof. exact clear_independent_of_table_order. Qed.
+Check (C06_clear_independent_of_table_order : forall w v1 v2, Permutation v1 v2 ->
+  (forall sh, In sh v1 -> length sh = w_n w) -> step w (Clear v1) = step w (Clear v2)).
+Print Assumptions C06_clear_independent_of_table_order.
+
+(** ... as it was before the repair: the same two archetypes in the two possible table orders *)
+Theorem C06_F6_before_the_repair :
+  let w := {| w_n := 2; w_archs := [mkArch [true; false] [((0, 0%N), [7%N])]; mkArch [false; true] [((1, 0%N), [8%N])]];
+              w_tid := []; w_slots := [mkSlot 0 (Some ([true; false], 0)); mkSlot 0 (Some ([false; true], 0))];
+              w_free := []; w_len := 2; w_res := [] |} in
+  match do_clear w [[true; false]; [false; true]], do_clear w [[false; true]; [true; false]] with
+  | Some (w1, _, _), Some (w2, _, _) => w_free w1 = [0; 1] /\ w_free w2 = [1; 0]
+  | _, _ => False
+  end.
+Proof. exact table_order_mattered. Qed.
+Print Assumptions C06_F6_before_the_repair.
+
+(** The identifier bytes the serializer writes decode to the shape they were written for, for EVERY registry
+    size (the per-byte step is the finite table of the 256 patterns of eight bits, lifted to every shape). *)
+Theorem C06_identifier_bytes_roundtrip : forall sh, shape_of_bytes (length sh) (bytes_of_shape sh) = sh.
+Proof. exact shape_of_bytes_of_shape. Qed.
+Check (C06_identifier_bytes_roundtrip : forall sh, shape_of_bytes (length sh) (bytes_of_shape sh) = sh).
+Print Assumptions C06_identifier_bytes_roundtrip.
